@@ -29,7 +29,7 @@ func init() {
 			}
 			return evid.Spec{ID: "C20", Level: "model_checking", Exhaustive: true,
 				Rule: fmt.Sprintf("all connection histories of <= %d events after the first open, over: open an admitted connection (at most 2), open a refused connection, on each open connection a packet "+
-					"(session A/B x seq 1,2,3 x handler replies / replies+continuation / continuation only), a key-mismatch packet, an oversize header, a client close; every history is followed by the teardown "+
+					"(session A/B x seq 1,2,3 and, on session A, 255 x handler replies / replies+continuation / continuation only), a key-mismatch packet, an oversize header, a client close; every history is followed by the teardown "+
 					"(remaining clients close, context cancelled, Serve returns). The four in-flight gauges are gathered from the default prometheus registry before the history, at every idle point and after Serve returned: "+
 					"none may be below its value at rest, all must be back at rest at the end. states = distinct (open connections, open sessions per connection) model states; transitions = events executed", d),
 				Assumptions: []string{"gauges are read through prometheus.DefaultGatherer; the Go and process collectors are unregistered in the harness process only to make gathering cheap"}}
@@ -195,8 +195,11 @@ func c20Enabled(open []bool, nOpened int) []c20Event {
 			continue
 		}
 		for sid := 0; sid < 2; sid++ {
-			for _, seq := range []int{1, 2, 3} {
+			for _, seq := range []int{1, 2, 3, 255} {
 				for _, act := range []string{"R", "RN", "N"} {
+					if seq == 255 && sid == 1 {
+						continue // the top of the sequence space is exercised on session A only
+					}
 					ev = append(ev, c20Event{Kind: "pkt", Conn: i, Sid: sid, Seq: seq, Act: act})
 				}
 			}
